@@ -138,7 +138,9 @@ def main():
     full = {}
     for ver in versions:
         td = os.path.join(FP, "target-full")
-        rc, binary = build(ver, ["signing", "encrypting", "paserk"], td, os.path.join(rundir, f"build-v{ver}-full.log"))
+        # the reference configuration is the crate with its *default* features, as a user gets it; the same nine
+        # flags spelled out with default-features = false are one of the compared configurations ("all")
+        rc, binary = build(ver, ["crate-default"], td, os.path.join(rundir, f"build-v{ver}-full.log"))
         if rc != 0:
             rep["inconclusive"].append(f"paseto-v{ver}: the full-feature probe does not build ({first_error(os.path.join(rundir, f'build-v{ver}-full.log'))}) — the tree does not compile at all")
             continue
@@ -248,7 +250,7 @@ def main():
             viol(f"C19|core+json|{'build-or-run-failed'}:{name}", {"features": list(feats), "first_error": first_error(logp)})
 
     rep["distinct"] = len(hashes)
-    rep["info"]["rule"] = ("configurations = (crate, closed feature set); quick: none, all, each single feature and four mixed sets per crate (%d sets), thorough: all %d distinct closures of the 9 flags, each requested through its smallest generating subset so that the crate's own implication edges are what makes it build; each configuration is built (release) and its probe run on fixed keys and the full build's corpus; every transcript line must equal the full build's; plus paseto-core +- serde and paseto-json +- claims; distinct = distinct (crate, closure)" % (len(quick_sets()), len(closed)))
+    rep["info"]["rule"] = ("configurations = (crate, closed feature set); quick: none, all, each single feature and four mixed sets per crate (%d sets), thorough: all %d distinct closures of the 9 flags, each requested through its smallest generating subset so that the crate's own implication edges are what makes it build; each configuration is built (release) and its probe run on fixed keys and the reference build's corpus; the reference build is the crate with its *default* features (cargo's implicit `default`), the nine flags spelled out with default-features = false are one of the compared configurations; every transcript line (incl. 25 deterministic signatures per crate) must equal the reference build's; plus paseto-core +- serde and paseto-json +- claims; distinct = distinct (crate, closure)" % (len(quick_sets()), len(closed)))
     with open(outp, "w") as f:
         json.dump(rep, f)
     with open(outp + ".hashes", "wb") as f:
